@@ -89,6 +89,7 @@ Definition g_coro (x : ans) : coro :=
   | [ANum 0; d] => CBatch (batch_start (g_batch d))
   | [ANum 1; p; k] => CRule (rule_start (g_bytes p) (g_kind k))
   | [ANum 2; _; ps] => CPages (pagesq_start (g_blist ps))
+  | [ANum 3; o; au] => CNet (netq_start (g_bool o) (g_bool au))
   | _ => CPages (pagesq_start [])
   end.
 Definition a_coro (c : coro) : ans :=
@@ -96,6 +97,7 @@ Definition a_coro (c : coro) : ans :=
   | CBatch b => AList [a_bool (b_done b); a_reply (Report (b_n b) (b_c b))]
   | CRule r => AList [a_bool (r_done r); a_reply (Report (r_n r) (r_c r))]
   | CPages q => AList [a_bool (q_done q); if q_refused q then ARefused else a_list a_page (q_acc q)]
+  | CNet q => AList [a_bool (n_done q); a_graph (n_graph q)]
   end.
 Fixpoint finish_all (n : nat) (cs : list coro) (m : traph) : list coro * traph :=
   match n with
@@ -238,6 +240,7 @@ Definition exec (op : N) (args : list ans) (st : dstate) : dstate * ans :=
   | 63 => (st, both (a_opt ABytes (apply_rule (g_kind A0) (g_bytes A1))) ANone)
   | 64 => (st, both (a_list ABytes (stem_head (g_bytes A0) :: stem_tail_chunks (g_bytes A0))) ANone)
   | 65 => (st, both (ABytes (lru_dirname (g_bytes A0))) ANone)
+  | 66 => (st, both (AList [ANum (base4_append (g_num A0) (g_num A1)); a_list ANum (int_to_base4 (g_num A0))]) ANone)
   | 70 =>
       let ops := map g_sop (g_list A1) in
       let '(fs, fr) := file_run (g_num A0) (mkF [] 0) ops in
